@@ -39,7 +39,7 @@ package security
 //@ func CheckPAACookie
 //@   requires[C10] wf: hasTunnel(ctx) && ctxTunnel(ctx).User != nil && tunnelUser(ctx) != nil
 //@   assigns[C07] ctxTunnel(ctx).TargetServer, ctxTunnel(ctx).RemoteAddr, tunnelUser(ctx).userName
-//@   assigns #lastNow, #parsedTok, #parsedFrom, #macOK, #macTok, #macKey, #claimsStd, #claimsExtra, #validatedOK, #validatedIssuer, #validatedAt, #validatedLeeway, #userinfoOK, #userinfoToken, #tokenSourceAT
+//@   assigns #lastNow, #parsedTok, #parsedFrom, #macOK, #macTok, #macKey, #claimsStd, #claimsExtra, #validatedOK, #validatedIssuer, #validatedAt, #validatedLeeway, #userinfoOK, #userinfoToken, #tokenSourceAT, #loginName
 //@   loop 0 invariant hdr: -1 <= rangeindex && rangeindex < len(token.Headers)
 //@   ensures[C02] parsed: result0 ==> tokenString != "" && #parsedFrom == tokenString && #parsedTok != nil
 //@   ensures[C02] mac: result0 ==> #macOK && #macTok == #parsedTok && #macKey == old(SigningKey)
@@ -49,7 +49,18 @@ package security
 //@   ensures[C04] bound: result0 ==> ctxTunnel(ctx).RemoteAddr == dyn(#claimsExtra, ptr(customClaims)).ClientIP && ctxTunnel(ctx).TargetServer == dyn(#claimsExtra, ptr(customClaims)).RemoteServer
 //@   ensures[C07] untouched: !result0 ==> ctxTunnel(ctx).TargetServer == old(ctxTunnel(ctx).TargetServer) && ctxTunnel(ctx).RemoteAddr == old(ctxTunnel(ctx).RemoteAddr)
 //@   site (github.com/go-jose/go-jose/v4/jwt.Claims).Validate requires[C02] verifiedClaims: arg0 == *dyn(#claimsStd, ptr(jwt.Claims)) && arg1.Issuer == "rdpgw"
+//@   site identity.Identity.SetUserName requires[C12] loginName: arg1 == #loginName
 //@   site (*golang.org/x/oauth2.Config).TokenSource requires[C02] embeddedToken: arg2.AccessToken == dyn(#claimsExtra, ptr(customClaims)).AccessToken
+//@   nopanic[C10]
+
+// the tunnel user is the login name: the first user name claim, in the order the openid callback uses
+//@ func userName
+//@   requires[C10] wf: user != nil
+//@   assigns #loginName
+//@   loop 0 invariant first: rangeindex >= 0 ==> !typeIs(data["preferred_username"], string)
+//@   ghostset #loginName = result
+//@   local ensures[C12] order: err == nil && typeIs(data["preferred_username"], string) ==> result == dyn(data["preferred_username"], string)
+//@   site (*github.com/coreos/go-oidc/v3/oidc.UserInfo).Claims requires[C12] ofUser: arg0 == user
 //@   nopanic[C10]
 
 // ---------------------------------------------------------------- token minting and verification
